@@ -1,4 +1,4 @@
-//@unit c06_moves props=C06,C07 widths=u32
+//@unit c06_moves props=C06,C07,C05 widths=u32
 //@use prelude/head.rs
 //@use prelude/lrpar.rs
 
@@ -12,6 +12,13 @@ impl Cactus {
     pub uninterp spec fn svals(&self) -> Seq<RepairMerge>;
     #[verifier::external_body] pub fn child(&self, x: RepairMerge) -> (r: Cactus) ensures r.svals() == seq![x] + self.svals() { unimplemented!() }
     #[verifier::external_body] pub fn clone(&self) -> (r: Cactus) ensures r.svals() == self.svals() { unimplemented!() }
+    // values from this node towards the root, as Cactus::vals() yields them
+    #[verifier::external_body] pub fn vals_vec(&self) -> (r: &Vec<RepairMerge>) ensures r@ == self.svals() { unimplemented!() }
+    // `*c.val().unwrap()`: the most recent value (a search node's repair list always holds at least the terminator)
+    #[verifier::external_body] pub fn first(&self) -> (r: &RepairMerge)
+        requires self.svals().len() > 0, // OBLG: C07.moves.repair_list_of_a_search_node_is_never_empty
+        ensures *r == self.svals()[0]
+    { unimplemented!() }
 }
 // Cactus<StIdx>: the parse stack of a search node
 #[verifier::external_body] pub struct PStackC { _x: usize }
@@ -33,7 +40,10 @@ impl Grm { pub uninterp spec fn seof(&self) -> TIdx<$T>;
 impl STable {
     // dialect: `state_actions(st)` (an iterator over the tokens with a non-error action) as a list
     #[verifier::external_body] pub fn state_actions_vec(&self, st: StIdx<$T>) -> (r: Vec<TIdx<$T>>) { unimplemented!() }
+    pub uninterp spec fn sact(&self, st: StIdx<$T>, t: TIdx<$T>) -> ActionK;
+    #[verifier::external_body] pub fn action(&self, st: StIdx<$T>, t: TIdx<$T>) -> (r: ActionK) ensures r == self.sact(st, t) { unimplemented!() }
 }
+#[derive(Clone, Copy, PartialEq, Eq)] pub enum ActionK { Shift(StIdx<$T>), Reduce(PIdx<$T>), Accept, Error }
 pub struct Parser { pub grm: Grm, pub stable: STable, pub nlexemes: usize }
 impl Parser {
     pub uninterp spec fn snext(&self, laidx: int) -> LexemeT;
@@ -45,8 +55,10 @@ impl Parser {
     #[verifier::external_body] pub fn token_cost(&self, t: TIdx<$T>) -> (r: u8) ensures r == self.scost(t) { unimplemented!() }
     pub fn lexemes_len(&self) -> (r: usize) ensures r == self.nlexemes { self.nlexemes }
     // lr_cactus(prefix, laidx, end, pstack, &mut None): LR parsing on a cactus stack until `end` (unit c07_lr has the Vec version)
+    pub uninterp spec fn cact_la(&self, prefix: Option<LexemeT>, laidx: usize, end: usize, st: Seq<StIdx<$T>>) -> usize;
+    pub uninterp spec fn cact_st(&self, prefix: Option<LexemeT>, laidx: usize, end: usize, st: Seq<StIdx<$T>>) -> Seq<StIdx<$T>>;
     #[verifier::external_body] pub fn lr_cactus(&self, lexeme_prefix: Option<LexemeT>, laidx: usize, end_laidx: usize, pstack: PStackC) -> (r: (usize, PStackC))
-        ensures laidx <= r.0 <= end_laidx || r.0 == laidx
+        ensures laidx <= r.0 <= end_laidx || r.0 == laidx, r.0 == self.cact_la(lexeme_prefix, laidx, end_laidx, pstack.s()), r.1.s() == self.cact_st(lexeme_prefix, laidx, end_laidx, pstack.s()), r.1.s().len() > 0
     { unimplemented!() }
 }
 pub struct CPCTPlus { pub parser: Parser }
@@ -128,17 +140,98 @@ impl CPCTPlus {
     fn shift(&self, n: &PathFNode, nbrs: &mut Vec<(u16, PathFNode)>)
         requires n.laidx <= self.parser.nlexemes, self.parser.nlexemes < usize::MAX,
         ensures final(nbrs)@.len() >= old(nbrs)@.len(), final(nbrs)@.len() <= old(nbrs)@.len() + 1, forall|k: int| 0 <= k < old(nbrs)@.len() ==> final(nbrs)@[k] == old(nbrs)@[k],
+            // a lexeme that plain parsing can shift always gives a neighbour (also when the stack comes out with the same states)
+            self.parser.cact_la(None, n.laidx, (n.laidx + 1) as usize, n.pstack.s()) > n.laidx ==> final(nbrs)@.len() == old(nbrs)@.len() + 1, // OBL: C06.shifting_a_lexeme_is_always_a_move
             final(nbrs)@.len() == old(nbrs)@.len() + 1 ==> {
                 let nn = final(nbrs)@.last().1;
                 &&& final(nbrs)@.last().0 == nn.cf && nn.cf == n.cf // OBL: C06.a_shift_costs_nothing
+                &&& nn.laidx == self.parser.cact_la(None, n.laidx, (n.laidx + 1) as usize, n.pstack.s()) && nn.pstack.s() == self.parser.cact_st(None, n.laidx, (n.laidx + 1) as usize, n.pstack.s())
                 &&& (nn.laidx > n.laidx ==> nn.repairs.svals() == seq![RepairMerge::Repair(Repair::Shift)] + n.repairs.svals())
                 &&& (nn.laidx <= n.laidx ==> nn.repairs.svals() == n.repairs.svals())
             }, // OBL: C06.a_shift_is_recorded_exactly_when_a_lexeme_was_consumed
+            // a neighbour that consumed nothing carries reductions made under the current lookahead: it is only kept when the parser accepts from it
+            final(nbrs)@.len() == old(nbrs)@.len() + 1 && final(nbrs)@.last().1.laidx <= n.laidx ==>
+                self.parser.stable.sact(final(nbrs)@.last().1.pstack.s().last(), self.parser.snext_tidx(n.laidx as int)) == ActionK::Accept, // OBL: C05.reductions_without_a_shift_are_only_kept_when_the_parser_accepts C07.reductions_without_a_shift_are_only_kept_when_the_parser_accepts
     {
         //@probe
         //@body file=lrpar/src/lib/cpctplus.rs fn=shift
         //@rule n=1 `\.lr_cactus\(None, laidx, laidx \+ 1, n\.pstack\.clone\(\), &mut None\)` => `.lr_cactus(None, laidx, laidx + 1, n.pstack.clone())`
-        //@rule n=1 `if n\.pstack != n_pstack \{` => `if n.pstack.ne(&n_pstack) {`
+        //@rule n=* `n\.pstack != n_pstack` => `n.pstack.ne(&n_pstack)`
+        //@rule n=* `\*n_pstack\.val\(\)\.unwrap\(\)` => `n_pstack.top()`
+        //@rule n=* `Action::Accept` => `ActionK::Accept`
+        //@endbody
+    }
+}
+
+// ---- when may two search nodes be merged? (PartialEq for PathFNode) ----
+pub open spec fn is_shift_rm(x: RepairMerge) -> bool { x matches RepairMerge::Repair(Repair::Shift) || x matches RepairMerge::Merge(Repair::Shift, _) }
+// number of shifts at the recent end of a repair list
+pub open spec fn lead_shifts(v: Seq<RepairMerge>) -> nat
+    decreases v.len()
+{ if v.len() == 0 || !is_shift_rm(v[0]) { 0 } else { 1 + lead_shifts(v.drop_first()) } }
+pub open spec fn last_rep(v: Seq<RepairMerge>) -> Option<Repair> {
+    match v[0] { RepairMerge::Repair(r) => Some(r), RepairMerge::Merge(x, _) => Some(x), RepairMerge::Terminator => None }
+}
+pub open spec fn ends_in_delete(v: Seq<RepairMerge>) -> bool { last_rep(v) == Some(Repair::Delete) }
+pub proof fn lemma_lead_shifts_take(v: Seq<RepairMerge>, n: int)
+    requires 0 <= n <= v.len(), forall|i: int| 0 <= i < n ==> is_shift_rm(#[trigger] v[i]), n == v.len() || !is_shift_rm(v[n])
+    ensures lead_shifts(v) == n
+    decreases n
+{
+    if n > 0 {
+        assert forall|i: int| 0 <= i < n - 1 implies is_shift_rm(#[trigger] v.drop_first()[i]) by { assert(v.drop_first()[i] == v[i + 1]); }
+        if n < v.len() { assert(v.drop_first()[n - 1] == v[n]); }
+        lemma_lead_shifts_take(v.drop_first(), n - 1);
+    }
+}
+fn num_shifts(c: &Cactus) -> (n: usize)
+    ensures n == lead_shifts(c.svals()), // OBL: C05.node_merge.trailing_shift_count
+{
+    //@probe
+    //@body file=lrpar/src/lib/cpctplus.rs fn=eq block=`^\s*let num_shifts = \|c: &Cactus<RepairMerge<StorageT>>\| \{` through=brace
+    //@rule n=1 `^\s*let num_shifts = \|c: &Cactus<RepairMerge<\$T>>\| \{\n` => ``
+    //@rule n=1 `^(\s*)\};\s*$` => ``
+    //@rule n=1 `let mut n = 0;` => `let mut n: usize = 0;`
+    //@rule n=1 `^(\s*)for r in c\.vals\(\) \{$` =>>
+            let vals_ = c.vals_vec();
+            let mut vi_: usize = 0;
+            while vi_ < vals_.len()
+                invariant_except_break vi_ <= vals_@.len(), n == vi_, vals_@ == c.svals(), forall|i: int| 0 <= i < vi_ ==> is_shift_rm(#[trigger] vals_@[i]),
+                ensures vals_@ == c.svals(), n <= vals_@.len(), forall|i: int| 0 <= i < n ==> is_shift_rm(#[trigger] vals_@[i]), n == vals_@.len() || !is_shift_rm(vals_@[n as int]),
+                decreases vals_@.len() - vi_,
+            {
+                //@probe
+                let r = &vals_[vi_];
+                vi_ = vi_ + 1;
+    //@end
+    //@rule n=1 `^(\s*)n\s*$` => `\1proof { lemma_lead_shifts_take(c.svals(), n as int); }\n\1n`
+    //@endbody
+}
+impl PathFNode {
+    fn last_repair(&self) -> (r: Option<Repair>)
+        requires self.repairs.svals().len() > 0,
+        ensures r == last_rep(self.repairs.svals()),
+    {
+        //@probe
+        //@body file=lrpar/src/lib/cpctplus.rs fn=last_repair
+        //@rule n=1 `match \*self\.repairs\.val\(\)\.unwrap\(\) \{` => `match *self.repairs.first() {`
+        //@endbody
+    }
+    //@ctx eq: both nodes carry a repair list (at least the terminator)
+    fn eq(&self, other: &PathFNode) -> (r: bool)
+        requires self.repairs.svals().len() > 0, other.repairs.svals().len() > 0,
+        ensures
+            r ==> self.laidx == other.laidx && self.pstack.s() == other.pstack.s(), // OBL: C05.node_merge.only_nodes_in_the_same_parse_configuration_are_merged C07.node_merge.only_nodes_in_the_same_parse_configuration_are_merged
+            r == (self.laidx == other.laidx && self.pstack.s() == other.pstack.s()
+                && ends_in_delete(self.repairs.svals()) == ends_in_delete(other.repairs.svals())
+                && lead_shifts(self.repairs.svals()) == lead_shifts(other.repairs.svals())), // OBL: C05.node_merge.compatible_iff_same_configuration_same_trailing_shifts_same_delete_ending
+    {
+        //@probe
+        //@body file=lrpar/src/lib/cpctplus.rs fn=eq
+        //@rule n=1 `self\.pstack != other\.pstack` => `self.pstack.ne(&other.pstack)`
+        //@cut n=1 `let num_shifts = \|c: &Cactus<RepairMerge<\$T>>\| \{` =>>
+        //@end
+        //@rule n=1 `^\s*;\s*\n(\s*)let self_shifts` => `\1let self_shifts`
         //@endbody
     }
 }
